@@ -453,6 +453,29 @@ def translate_module(repo, spec):
             body, tail = body
         tr = FnTranslator(fn, fcfg, body=body)
         code = tr.emit(fcfg["ns"])
+        if fcfg.get("advice_vars"):
+            # C19: the expressions interpolated right after the given text in the f-strings of the function's `raise`
+            # statements (the directory the script NAMES), in source order, kept as text
+            marker = fcfg["advice_vars"]
+            found = []
+            for node in ast.walk(fn):
+                if isinstance(node, ast.Raise) and isinstance(node.exc, ast.Call):
+                    for arg in node.exc.args:
+                        if isinstance(arg, ast.JoinedStr):
+                            seen = False
+                            for v in arg.values:
+                                if isinstance(v, ast.Constant) and isinstance(v.value, str):
+                                    seen = seen or marker in v.value
+                                    if marker in v.value and not v.value.rstrip().endswith(":"):
+                                        seen = False if v.value.split(marker, 1)[1].strip(" :") else seen
+                                elif isinstance(v, ast.FormattedValue) and seen:
+                                    found.append(ast.unparse(v.value))
+                                    seen = False
+            if not found:
+                raise TranslateError("no expression interpolated after %r in a raise of %s" % (marker, fcfg["name"]))
+            code = code.replace("end %s\n" % fcfg["ns"],
+                                "/-- what the error messages interpolate after \"%s\" -/\ndef adviceVars : List String := [%s]\n\nend %s\n" % (
+                                    marker, ", ".join('"%s"' % f for f in found), fcfg["ns"]), 1)
         if tail is not None:
             # the recognised tail idiom of get_lower_triangular_indices_chunk
             want = fcfg["tail_idiom"]
